@@ -19,6 +19,7 @@ import (
 	"go/parser"
 	"go/token"
 	"path/filepath"
+	"sort"
 	"strings"
 )
 
@@ -166,4 +167,87 @@ func extractUpdateSets(repo string) (*updateSets, error) {
 		return res, nil
 	}
 	return nil, fmt.Errorf("transport.go: (*connPool).update not found")
+}
+
+// updateStateWrites reports what (*connPool).update writes to the cached state in its two branches
+// (`if <err> != nil { … } else { … }`): whether the error branch returns early when metadata is already known,
+// whether it stores the error, and which fields the success branch assigns (with `err=nil` when the error is cleared).
+// The state variable is the local initialised from `<pool>.grabState()`; the error is the function's last parameter.
+func updateStateWrites(repo string) (keepsKnown, storesErr bool, success []string, err error) {
+	fset := token.NewFileSet()
+	f, perr := parser.ParseFile(fset, filepath.Join(repo, "transport.go"), nil, 0)
+	if perr != nil {
+		return false, false, nil, perr
+	}
+	for _, d := range f.Decls {
+		fd, ok := d.(*ast.FuncDecl)
+		if !ok || fd.Body == nil || fd.Name.Name != "update" || recvName(fd) != "connPool" {
+			continue
+		}
+		params := fd.Type.Params.List
+		errName := params[len(params)-1].Names[0].Name
+		stateVar := ""
+		var branch *ast.IfStmt
+		for _, st := range fd.Body.List {
+			switch x := st.(type) {
+			case *ast.AssignStmt:
+				if len(x.Lhs) == 1 && len(x.Rhs) == 1 && strings.HasSuffix(exprString(x.Rhs[0]), ".grabState(…)") {
+					stateVar = exprString(x.Lhs[0])
+				}
+			case *ast.IfStmt:
+				if exprString(x.Cond) == "?" { // BinaryExpr is not rendered by exprString
+					if b, ok := x.Cond.(*ast.BinaryExpr); ok && b.Op == token.NEQ && exprString(b.X) == errName && exprString(b.Y) == "nil" && branch == nil {
+						branch = x
+					}
+				}
+			}
+		}
+		if stateVar == "" || branch == nil {
+			return false, false, nil, fmt.Errorf("update: state variable / error branch not found")
+		}
+		writes := func(body []ast.Stmt) (out []string, early bool) {
+			for _, st := range body {
+				switch x := st.(type) {
+				case *ast.IfStmt: // if state.metadata != nil { return }
+					if b, ok := x.Cond.(*ast.BinaryExpr); ok && b.Op == token.NEQ && exprString(b.X) == stateVar+".metadata" && exprString(b.Y) == "nil" {
+						for _, s2 := range x.Body.List {
+							if _, ok := s2.(*ast.ReturnStmt); ok {
+								early = true
+							}
+						}
+					}
+				case *ast.AssignStmt:
+					for i, l := range x.Lhs {
+						ls := exprString(l)
+						if !strings.HasPrefix(ls, stateVar+".") || i >= len(x.Rhs) {
+							continue
+						}
+						rhs := exprString(x.Rhs[i])
+						switch {
+						case rhs == "nil":
+							rhs = "nil"
+						case rhs == errName:
+							rhs = "err"
+						default:
+							rhs = "new"
+						}
+						out = append(out, strings.TrimPrefix(ls, stateVar+".")+"="+rhs)
+					}
+				}
+			}
+			return
+		}
+		ew, early := writes(branch.Body.List)
+		for _, w := range ew {
+			if w == "err=err" {
+				storesErr = true
+			}
+		}
+		if blk, ok := branch.Else.(*ast.BlockStmt); ok {
+			success, _ = writes(blk.List)
+		}
+		sort.Strings(success)
+		return early, storesErr, success, nil
+	}
+	return false, false, nil, fmt.Errorf("transport.go: (*connPool).update not found")
 }
